@@ -245,6 +245,27 @@ Definition key_of_hex (s : list N) : option (list N) :=
   else if negb (Nat.even (length s)) then None
   else if all_hex s then Some (hex_pairs s) else None.
 
+(* where a key comes from: the hex string of the configuration, or the content of session.client.*_file
+   (crypto::key::read_from_file: an empty file is refused, trailing blanks / line ends are dropped, the rest is hex) *)
+Inductive keysrc := KHex (s : list N) | KFile (content : list N).
+Inductive keyres := KeyOk (k : list N) | KeyBadHex | KeyEmptyFile.
+Definition is_ws (c : N) : bool := (c =? 32) || (c =? 10) || (c =? 13) || (c =? 9).
+Fixpoint rtrim (s : list N) : list N :=
+  match s with
+  | [] => []
+  | c :: r => match rtrim r with
+              | [] => if is_ws c then [] else [c]
+              | r' => c :: r'
+              end
+  end.
+Definition key_of_src (k : keysrc) : keyres :=
+  match k with
+  | KHex s => match key_of_hex s with Some k => KeyOk k | None => KeyBadHex end
+  | KFile content =>
+      if is_nil content then KeyEmptyFile
+      else match key_of_hex (rtrim content) with Some k => KeyOk k | None => KeyBadHex end
+  end.
+
 (* configuration before key preparation, as the factories receive it *)
 Inductive rawcfg :=
 | RHmac (alg_name key : list N)
@@ -253,7 +274,7 @@ Inductive rawcfg :=
 
 (* error codes: 1 no method, 2 encryptor together with hmac/cbc, 3 cbc without hmac, 4 unknown encryptor,
    5 combined aes key length, 6 cipher or hash not supported by the aes encryptor, 7 malformed hex key,
-   8 hmac key shorter than 16 bytes, 9 cbc key size, 10 unknown hash for the hmac encryptor.
+   8 hmac key shorter than 16 bytes, 9 cbc key size, 10 unknown hash for the hmac encryptor, 11 empty key file.
    at_use = false: raised while the pool / encryptor object is built; true: raised by the first use *)
 Inductive prep :=
 | PrepErr (code : N) (at_use : bool)
@@ -286,30 +307,24 @@ Section Prep.
         end
     end.
 
-  (* session_pool::init for session.location = client: option strings and the three hex key strings *)
-  Definition pool_config (enc mac cbc key hkey ckey : list N) : prep + rawcfg :=
+  (* session_pool::init for session.location = client: option strings and the three key sources *)
+  Definition with_key (k : keysrc) (f : list N -> prep + rawcfg) : prep + rawcfg :=
+    match key_of_src k with
+    | KeyOk key => f key
+    | KeyBadHex => inl (PrepErr 7 false)
+    | KeyEmptyFile => inl (PrepErr 11 false)
+    end.
+  Definition pool_config (enc mac cbc : list N) (key hkey ckey : keysrc) : prep + rawcfg :=
     match pool_decide enc mac cbc with
     | PErrNoMethod => inl (PrepErr 1 false)
     | PErrBoth => inl (PrepErr 2 false)
     | PErrNoMac => inl (PrepErr 3 false)
-    | PEncHmacSha1 =>
-        match key_of_hex key with None => inl (PrepErr 7 false) | Some k => inr (RHmac [115;104;97;49] k) end
-    | PEncHmacNamed =>
-        match key_of_hex key with None => inl (PrepErr 7 false) | Some k => inr (RHmac (skipn 5 enc) k) end
-    | PEncAesCombined =>
-        match key_of_hex key with None => inl (PrepErr 7 false) | Some k => inr (RAesK enc k) end
-    | PErrUnknown =>
-        match key_of_hex key with None => inl (PrepErr 7 false) | Some _ => inl (PrepErr 4 false) end
-    | PMacOnly =>
-        match key_of_hex hkey with None => inl (PrepErr 7 false) | Some k => inr (RHmac mac k) end
-    | PAesSplit =>
-        match key_of_hex hkey with
-        | None => inl (PrepErr 7 false)
-        | Some mk => match key_of_hex ckey with
-                     | None => inl (PrepErr 7 false)
-                     | Some ck => inr (RAes cbc ck mac mk)
-                     end
-        end
+    | PEncHmacSha1 => with_key key (fun k => inr (RHmac [115;104;97;49] k))
+    | PEncHmacNamed => with_key key (fun k => inr (RHmac (skipn 5 enc) k))
+    | PEncAesCombined => with_key key (fun k => inr (RAesK enc k))
+    | PErrUnknown => with_key key (fun _ => inl (PrepErr 4 false))
+    | PMacOnly => with_key hkey (fun k => inr (RHmac mac k))
+    | PAesSplit => with_key hkey (fun mk => with_key ckey (fun ck => inr (RAes cbc ck mac mk)))
     end.
 End Prep.
 
